@@ -65,9 +65,10 @@ class Procedure[T_Ret]:
 			Errors.Error: 実行中のエラー
 		"""
 		self.__stacks.append([])
-		result = self.__exec_impl(root)
-		self.__stacks.pop()
-		return result
+		try:
+			return self.__exec_impl(root)
+		finally:
+			self.__stacks.pop()
 
 	def __exec_impl(self, root: Node) -> T_Ret:
 		"""指定のルート要素から逐次処理し、結果を出力
